@@ -345,6 +345,13 @@ def run(chk):
                        "impl_trace_tail": (impl or [])[-25:], "replay_cmd": "python3 tools/check.py C04 --replay <this file>"},
                       key=fnd["key"])
 
+    # the receive loop itself on a transport whose calls take time
+    ncases, bad = L.tr_loops_check(rnd, "recv", 400 if quick else 20000)
+    nrun += ncases
+    if bad:
+        found += 1
+        chk.violation({"kind": "tr_recv_all on a slow transport (impl vs the loop of C04_recv_all_exact)", "detail": bad,
+                       "replay_cmd": "echo '<case>' | build/bin/tr_loops_asan"}, key="recv-loop")
     for name, lines in corpus():
         fnd, impl = one(lines)
         nrun += 1
